@@ -68,8 +68,10 @@ theorem C14_reject_whole (env : PEnv) (orc : EvalOracles) (conf : List ConfBlock
      ∃ h, Proofs.callsOf plan (mainP env orc false conf files input) w = [.fopen env.confpath, .fclose h]) :=
   Proofs.bad_config_only_reads_config env orc conf files input w plan
 
-/-- Acceptance at token level: every keyword of the regenerated table, every printable string and
-every age literal the grammar can generate reads back as the token it was printed from. -/
+/-- Acceptance at token level: every keyword of the regenerated table (`Gen.keywords`, from parse.y: renaming a keyword
+there changes what this says) followed by anything that cannot continue a word, and every non-empty string without
+NUL, not ending in a backslash and shorter than the lexeme buffer, written between quotes with `"` escaped, reads back as
+the token it was printed from.  (Integer literals: `C14_int_literals`; units: `C15_age_literal_tokens`.) -/
 theorem C14_tokens_read_back :
     (∀ (sflag : Bool) (kw tokname : String) (rest : Bytes), (kw, tokname) ∈ Gen.keywords →
       (∀ c, rest.head? = some c → isKwChar c = false) →
